@@ -236,18 +236,18 @@ def genIndexAlphaBeta (i ij ik : List V2) (points : V2) : Option (Nat × Rat × 
 
 def genBarycentricVectors (points : Nat → V2) (trilist : List Tri) : List V2 × List V2 × List V2 :=
   let x0 := (cornersOf points trilist)
-  ((List.map (fun c => c.1) x0), (List.map (fun c => V2.sub c.2.1 c.1) x0), (List.map (fun c => V2.sub c.2.2 c.1) x0))
+  ((cornerI x0), ((cornerJ x0) - (cornerI x0)), ((cornerK x0) - (cornerI x0)))
 
 def genPwaTrilist (self : PwaObj) : List Tri :=
   ((self).source).trilist
 
 def genPwaRebuildTargetVectors (self : PwaObj) : PwaObj :=
   let t0 := (cornersOf (self).target (genPwaTrilist self))
-  let tup200 := (List.map (fun c => V2.sub c.2.1 c.1) t0)
-  let tup210 := (List.map (fun c => V2.sub c.2.2 c.1) t0)
+  let tup200 := ((cornerJ t0) - (cornerI t0))
+  let tup210 := ((cornerK t0) - (cornerI t0))
   let self0 := { self with tij := tup200 }
   let self1 := { self0 with tik := tup210 }
-  let self0 := { self1 with ti := (List.map (fun c => c.1) t0) }
+  let self0 := { self1 with ti := (cornerI t0) }
   self0
 
 def genPwaSync (self : PwaObj) : PwaObj :=
